@@ -318,20 +318,22 @@ def run_impl(case):
 def encode(case):
     if case['kind'] == 'ops':
         return sched.encode_ops(_cmds(case))
-    return [0]
+    # the traffic recorded on the thread-local stores while the requests ran (run_impl ran before)
+    return sched.encode_ops(sched.trace_cmds(case) or [])
 
 
 def decode(out, case):
     if case['kind'] == 'ops':
         return dict(kind='ops', outs=sched.decode_ops(out, _cmds(case)))
-    return dict(kind=case['kind'], outs=sched.decode_ops(out, []))
+    return dict(kind=case['kind'], outs=sched.decode_ops(out, sched.trace_cmds(case) or []))
 
 
 def project(obs, case):
     if case['kind'] == 'ops':
         return dict(kind='ops', outs=obs.get('outs'))
-    # real requests have no model-side counterpart here: the model answers the empty command list
-    return dict(kind=case['kind'], outs=[])
+    # what every access to the thread-local stores returned while the real requests were served, to be
+    # predicted by the model from the recorded sequence of accesses (batches are not recorded)
+    return dict(kind=case['kind'], outs=obs.get('trace_outs', []))
 
 
 def oracle(case, obs):
